@@ -1,4 +1,149 @@
-import CTM.Model.Stats
+/-
+  Property C09: "Reference statistics equal direct computation and are additive".
+
+  Theorems about the executable model `CTM.Model.Stats` of the statistics
+  writers (`precompute_from_anndata.py`, `stats_utils.py`,
+  `truncate_precompute.py`, `precompute_utils.py`, `score_utils.py`).
+  Helper lemmas live in `CTM.Lemmas.Stats`.
+-/
+import CTM.Lemmas.Stats
+
 namespace CTM.C09
-theorem placeholder_true : True := trivial
+open CTM.Stats
+
+/-- "The values do not depend on how cells are spread over files, encodings,
+chunks or workers" (additivity): the accumulated statistics of a block of
+cells `A ++ B` are the sum of the statistics of `A` and of `B`, for any
+per-cell contribution `f` (in particular `fun c => cellStat c.vals`). -/
+theorem stat_append {α : Type} (f : α → Row) (A B : List α) :
+    rowSum ((A ++ B).map f) = (rowSum (A.map f)).add (rowSum (B.map f)) := by
+  rw [List.map_append, rowSum_append]
+
+example : rowSum ((([[1, 2], [3, 4]] : List (List Rat)) ++ [[5, 6]]).map cellStat)
+    = (rowSum ([[1, 2], [3, 4]].map cellStat)).add (rowSum ([[5, 6]].map cellStat)) := by
+  decide +kernel
+
+/-- "The values do not depend on how cells are spread over files ... chunks or
+workers" (order): the accumulated statistics of a block of cells do not depend
+on the order in which the cells are visited. -/
+theorem stat_perm {α : Type} (f : α → Row) {A B : List α} (h : A.Perm B) :
+    rowSum (A.map f) = rowSum (B.map f) :=
+  rowSum_perm (h.map f)
+
+example : rowSum (([[1, 2], [3, 4], [5, 6]] : List (List Rat)).map cellStat)
+    = rowSum (([[5, 6], [1, 2], [3, 4]] : List (List Rat)).map cellStat) := by
+  decide +kernel
+
+/-- "the sum and sum of squares of log2(CPM+1)" determine mean and variance:
+with `n` values of sum `s` and sum of squares `q`, `meanOf n s` is the mean
+(`n ≥ 1`) and `varOf n s q` the unbiased sample variance (`n ≥ 2`), as used by
+`aggregate_stats`. -/
+theorem mean_var (xs : List Rat) :
+    (1 ≤ xs.length → meanOf xs.length xs.sum * (xs.length : Rat) = xs.sum) ∧
+    (2 ≤ xs.length →
+      varOf xs.length xs.sum (xs.map (fun x => x * x)).sum * ((xs.length : Rat) - 1)
+        = (xs.map (fun x => (x - meanOf xs.length xs.sum) ^ 2)).sum) :=
+  ⟨meanOf_mul _ _, varOf_mul xs⟩
+
+example : meanOf 3 ([1, 2, 6].sum) = 3 ∧ varOf 3 ([1, 2, 6].sum) (([1, 2, 6].map (fun x => x * x)).sum) = 7 := by
+  decide +kernel
+
+/-- "the reference-statistics file holds the number of member cells, the sum
+and sum of squares of log2(CPM+1), and the numbers of member cells with CPM
+above 0, above 1, and at least 1": for a block of cells with `g` genes each, the
+`n` field of `summary_stats_for_chunk` is the number of cells and the entry of
+gene `j < g` holds the plain column sums of the values, of their squares, and
+of the three threshold indicators.  Stated for the block added into a zeroed
+row (what the file holds, also right for an empty block) and, for a non-empty
+block, for `summaryStats` itself. -/
+theorem summary_fields (g : Nat) (cells : List (List Rat))
+    (hlen : ∀ c ∈ cells, c.length = g) (j : Nat) (hj : j < g) :
+    ((Row.zero g).add (summaryStats cells)).n = cells.length ∧
+    (summaryStats cells).n = cells.length ∧
+    ∃ s, ((Row.zero g).add (summaryStats cells)).genes[j]? = some s ∧
+      (cells ≠ [] → (summaryStats cells).genes[j]? = some s) ∧
+      s.sum = (cells.map (fun c => c.getD j 0)).sum ∧
+      s.sumsq = (cells.map (fun c => c.getD j 0 * c.getD j 0)).sum ∧
+      s.gt0 = (cells.map (fun c => (geneStat (c.getD j 0)).gt0)).sum ∧
+      s.gt1 = (cells.map (fun c => (geneStat (c.getD j 0)).gt1)).sum ∧
+      s.ge1 = (cells.map (fun c => (geneStat (c.getD j 0)).ge1)).sum := by
+  refine ⟨?_, summaryStats_n cells, colStat cells j,
+    zero_add_summaryStats_genes g cells hlen j hj, ?_, colStat_fields cells j⟩
+  · simp [Row.add, Row.zero, summaryStats_n]
+  · intro hne
+    rw [summaryStats_genes g cells hlen j hj, if_neg hne]
+
+example : (summaryStats [[0, 2], [1, 3]]).n = 2 ∧
+    (summaryStats [[0, 2], [1, 3]]).genes[1]? = some ⟨5, 13, 2, 2, 2⟩ := by
+  decide +kernel
+
+/-- "the numbers of member cells with CPM above 0, above 1, and at least 1":
+`log2` itself is not modelled; for ANY strictly increasing `log2p1` with
+`log2p1 0 = 0` and `log2p1 1 = 1` the indicator bits computed in log2 space
+are: `gt0 ↔ cpm > 0`, `gt1 ↔ cpm > 1`, `ge1 ↔ log2p1 cpm > ge1Cut` (the
+source's `1 - eps`); every `cpm ≥ 1` is counted in `ge1`, and a value below 1
+is counted only inside the documented tolerance window
+`ge1Cut < log2p1 cpm < 1`, whose width is at most `2e-6`.  The closed facts
+are about the constants regenerated from `stats_utils.py`. -/
+theorem thresholds (log2p1 : Rat → Rat) (hmono : ∀ a b, a < b → log2p1 a < log2p1 b)
+    (h0 : log2p1 0 = 0) (h1 : log2p1 1 = 1) (cpm : Rat) :
+    (geneStat (log2p1 cpm)).gt0 = (if 0 < cpm then 1 else 0) ∧
+    (geneStat (log2p1 cpm)).gt1 = (if 1 < cpm then 1 else 0) ∧
+    (geneStat (log2p1 cpm)).ge1 = (if Generated.ge1Cut < log2p1 cpm then 1 else 0) ∧
+    (1 ≤ cpm → (geneStat (log2p1 cpm)).ge1 = 1) ∧
+    ((geneStat (log2p1 cpm)).ge1 = 1 ∧ cpm < 1 →
+      Generated.ge1Cut < log2p1 cpm ∧ log2p1 cpm < 1) ∧
+    Generated.ge1Cut < 1 ∧ 1 - Generated.ge1Cut ≤ 2 / 1000000 ∧
+    Generated.gt0Strict = true ∧ Generated.gt1Strict = true ∧ Generated.ge1Strict = true ∧
+    Generated.gt0Cut = 0 ∧ Generated.gt1Cut = 1 := by
+  have hcut : Generated.ge1Cut < 1 := by norm_num [Generated.ge1Cut]
+  have e0 : (0 < log2p1 cpm) ↔ 0 < cpm := by
+    have := strictMono_lt_iff log2p1 hmono 0 cpm; rwa [h0] at this
+  have e1 : (1 < log2p1 cpm) ↔ 1 < cpm := by
+    have := strictMono_lt_iff log2p1 hmono 1 cpm; rwa [h1] at this
+  have e1' : (log2p1 cpm < 1) ↔ cpm < 1 := by
+    have := strictMono_lt_iff log2p1 hmono cpm 1; rwa [h1] at this
+  have g0 : (geneStat (log2p1 cpm)).gt0 = (if 0 < cpm then 1 else 0) := by
+    simp only [geneStat, above, Generated.gt0Strict, Generated.gt0Cut, if_true, gt_iff_lt, e0]
+  have g1 : (geneStat (log2p1 cpm)).gt1 = (if 1 < cpm then 1 else 0) := by
+    simp only [geneStat, above, Generated.gt1Strict, Generated.gt1Cut, if_true, gt_iff_lt, e1]
+  have g2 : (geneStat (log2p1 cpm)).ge1 = (if Generated.ge1Cut < log2p1 cpm then 1 else 0) := by
+    simp only [geneStat, above, Generated.ge1Strict, if_true, gt_iff_lt]
+  refine ⟨g0, g1, g2, ?_, ?_, hcut, by norm_num [Generated.ge1Cut], rfl, rfl, rfl, rfl, rfl⟩
+  · intro h
+    rw [g2, if_pos]
+    have : 1 ≤ log2p1 cpm := by
+      rcases lt_or_eq_of_le h with h' | h'
+      · exact le_of_lt (e1.mpr h')
+      · rw [← h', h1]
+    linarith
+  · rintro ⟨h, hlt⟩
+    rw [g2] at h
+    refine ⟨?_, e1'.mpr hlt⟩
+    by_contra hn
+    rw [if_neg hn] at h
+    exact absurd h (by decide)
+
+example : (geneStat 0).gt0 = 0 ∧ (geneStat (1/2)).gt0 = 1 ∧ (geneStat 1).gt1 = 0 ∧
+    (geneStat 1).ge1 = 1 ∧ (geneStat (999999/1000000)).ge1 = 1 ∧
+    (geneStat (99999/100000)).ge1 = 0 := by
+  decide +kernel
+
+/-- "The values do not depend on how cells are spread over ... chunks": for
+`rows_at_a_time ≥ 1` the chunks `(data_path, r0, r1)` of one file tile its
+rows: their cells concatenate to the file's cells, in order, and every chunk is
+a non-empty in-range slice `r0 < r1 ≤ n` of that file holding `r1 - r0`
+cells. -/
+theorem fileChunks_tile (rows f : Nat) (cells : List CellRec) (hrows : 1 ≤ rows) :
+    (fileChunks rows f cells).flatMap (·.cells) = cells ∧
+    ∀ c ∈ fileChunks rows f cells,
+      c.r0 < c.r1 ∧ c.r1 ≤ cells.length ∧ c.cells.length = c.r1 - c.r0 ∧ c.file = f := by
+  refine ⟨fileChunks_cells rows f cells hrows, fun c hc => ?_⟩
+  have := fileChunks_mem rows f cells hrows c hc
+  exact ⟨this.1, this.2.1, this.2.2.1, this.2.2.2.1⟩
+
+example : (fileChunks 2 7 [⟨0, [1]⟩, ⟨1, [2]⟩, ⟨2, [3]⟩]).map (fun c => (c.file, c.r0, c.r1))
+    = [(7, 0, 2), (7, 2, 3)] := by
+  decide +kernel
+
 end CTM.C09
